@@ -63,18 +63,21 @@ def thrStep (c : Cfg) (s : St) : Option (St × String) :=
     | 4 => if s.due then some ({ s with pc := 0 }, "timeout") else none
     | _ => none
 
-/-- actions: 0 = scheduler thread, 1 = the user disposes (once), 2 = the clock reaches the due time -/
+/-- actions: 0 = scheduler thread, 1 = the user disposes (once), 2 = the scheduler clock reaches the due time,
+3 = the event loop's timed `condition.wait` returns although the scheduler clock has NOT reached the due time
+(the wait runs on the monotonic clock; the scheduler clock may have been stepped back, or `now` overridden) -/
 def stepL (c : Cfg) (s : St) (a : Nat) : Option (St × String) :=
   match a with
   | 0 => thrStep c s
   | 1 => if s.cancelled then none
          else some ({ s with cancelled := true, disposedEarly := !s.due }, "dispose")
   | 2 => if s.due then none else some ({ s with due := true }, "tick")
+  | 3 => if c.kind == .evloop && s.pc == 4 then some ({ s with pc := 0 }, "timeout-early") else none
   | _ => none
 
 def step (c : Cfg) (s : St) (a : Nat) : Option St := (stepL c s a).map (·.1)
 
-def acts : List Nat := [0, 1, 2]
+def acts : List Nat := [0, 1, 2, 3]
 
 def run (c : Cfg) (s : St) : List Nat → St
   | [] => s
@@ -153,6 +156,7 @@ inductive Act where
   | loop
   | tick (r : Nat)      -- the clock reaches due time `r`
   | dispose (i : Nat)
+  | earlyWake           -- the timed `condition.wait` returns although the head is not due on the scheduler clock
 
 structure St where
   due : Nat → Bool := fun _ => false
@@ -216,6 +220,7 @@ def stepL (c : Cfg) (s : St) : Act → Option (St × String)
   | .loop => loopStep c s
   | .tick r => some ({ s with due := fun j => s.due j || decide (c.rank j ≤ r) }, s!"tick{r}")
   | .dispose i => disposeStep c s i
+  | .earlyWake => if s.pc = 4 then some ({ s with pc := 0 }, "wake") else none
 
 def step (c : Cfg) (s : St) (a : Act) : Option St := (stepL c s a).map (·.1)
 
@@ -232,3 +237,80 @@ def runLabels (c : Cfg) (s : St) : List Act → List String × St
     | some (t, l) => let r := runLabels c t as; (l :: r.1, r.2)
 
 end Thr2LoopN
+
+/-!
+# `NewThreadScheduler.schedule_periodic` (inherited by ThreadPoolScheduler)
+
+```
+while True:
+    if timeout > 0.0: disposed.wait(timeout)
+    if disposed.is_set(): return
+    time = self.now; state = action(state); timeout = seconds - (self.now - time)
+```
+`slow` = the tick that just ended overran its period (`timeout <= 0`: no wait before the next test).
+-/
+
+namespace Thr2Periodic
+
+structure St where
+  pc : Nat := 0            -- 0 loop head, 1 waiting, 2 about to read `disposed`, 3 tick running, 9 returned
+  slow : Bool := false     -- the last tick overran (or the period is 0)
+  disposed : Bool := false
+  elapsed : Bool := false  -- the current wait's timeout has elapsed
+  bad : Bool := false      -- a tick started after dispose() had returned
+deriving DecidableEq, Repr
+
+def init (period0 : Bool) : St := { slow := period0 }
+
+/-- actions: 0 = the periodic thread, 1 = dispose() (sets the event), 2 = the wait's timeout elapses,
+4 / 5 = the running tick ends within / beyond its period -/
+def stepL (s : St) (a : Nat) : Option (St × String) :=
+  match a with
+  | 0 =>
+    match s.pc with
+    | 0 => if s.slow then some ({ s with pc := 2 }, "nowait") else some ({ s with pc := 1, elapsed := false }, "wait")
+    | 1 => if s.disposed || s.elapsed then some ({ s with pc := 2 }, "waitret") else none
+    | 2 => if s.disposed then some ({ s with pc := 9 }, "return") else some ({ s with pc := 3 }, "tick-start")
+    | _ => none
+  | 1 => if s.disposed then none else some ({ s with disposed := true }, "dispose")
+  | 2 => if s.pc == 1 && !s.elapsed then some ({ s with elapsed := true }, "elapse") else none
+  | 4 => if s.pc == 3 then some ({ s with pc := 0, slow := false }, "tick-end") else none
+  | 5 => if s.pc == 3 then some ({ s with pc := 0, slow := true }, "tick-end-slow") else none
+  | _ => none
+
+/-- `bad` is recorded by the step function itself: a tick start while `disposed` -/
+def step (s : St) (a : Nat) : Option St :=
+  (stepL s a).map fun (t, l) => if l == "tick-start" && s.disposed then { t with bad := true } else t
+
+def acts : List Nat := [0, 1, 2, 4, 5]
+
+def run (s : St) : List Nat → St
+  | [] => s
+  | a :: as => run ((step s a).getD s) as
+
+def runLabels (s : St) : List Nat → List String × St
+  | [] => ([], s)
+  | a :: as =>
+    match stepL s a with
+    | none => let r := runLabels s as; ("blocked" :: r.1, r.2)
+    | some (_, l) => let r := runLabels ((step s a).getD s) as; (l :: r.1, r.2)
+
+def succs (s : St) : List St := acts.filterMap (step s)
+
+def addNew (seen : List St) : List St → List St
+  | [] => seen
+  | t :: ts => if seen.contains t then addNew seen ts else addNew (seen ++ [t]) ts
+
+def closure : Nat → List St → List St
+  | 0, seen => seen
+  | n + 1, seen =>
+    let seen' := addNew seen (seen.flatMap succs)
+    if seen'.length = seen.length then seen else closure n seen'
+
+def reach : List St := closure 32 [init false, init true]
+
+def Closed (R : List St) : Bool :=
+  R.contains (init false) && R.contains (init true) &&
+    R.all (fun s => acts.all (fun a => match step s a with | none => true | some t => R.contains t))
+
+end Thr2Periodic
